@@ -839,3 +839,10 @@ def range_test_is_nan_safe(ctx):
                       'the return is reachable only through the true branch of `lo <= value <= hi`',
                       f'`{src(r)}` is reached when the range comparisons are false: for NaN (the JSON token NaN is accepted by the decoder) every '
                       'comparison is false, so NaN is returned as a valid value of the range', f)
+
+
+@rule('C01.R7c', min_instances=1)
+def limits_tested_by_comparison(ctx):
+    """cross-cutting: limit properties (min, max, minlen ...) are never tested by their truth value in datatypes.py"""
+    from sa.rules import common
+    common.truthiness_on_value_slots(ctx, {'frappy.datatypes'})
